@@ -15,9 +15,13 @@ Sub-checks
   reuse    a combinator kept in a variable and re-used as an operand still denotes its own expression
 
 Oracle: refbool() - Python's own and/or/not over the atoms' truth, short-circuit order observed through logs.  A
-comparison that Python cannot evaluate ('a' > 0 raises TypeError) "is not true": the atom rejects, with MatchError.
+comparison that Python cannot evaluate "is not true": the atom rejects, with MatchError - whatever the comparison raised:
+TypeError ('a' > 0), decimal.InvalidOperation (a Decimal NaN in an ordering comparison), AttributeError (a value class with a
+duck-typed __lt__ compared with a number), ValueError (a comparison result without a truth value), LookupError, RecursionError
+(two self-containing lists), an exception class of the operand's own.
 """
 import enum
+from decimal import Decimal
 
 from hypothesis import strategies as st
 
@@ -33,12 +37,16 @@ RULE = ('bool: combinator trees of depth <= 4 over <= 6 atoms, built by construc
         '& | ~ operators, on targets drawn from a pool chosen so that atoms take both truth values; '
         'switch: 1-4 cases with logging value probes; checkkw: all keyword combinations of Check, one_of in six container '
         'spellings, iterable classes as type arguments; checkreuse: one Check built from one-shot iterables, evaluated 2-4 times. '
-        'Constructed classes: an ordering comparison Python cannot evaluate below Or / Not / a default / a Switch key; '
+        'Constructed classes: an ordering comparison Python cannot evaluate (TypeError) below Or / Not / a default / a Switch key; '
+        'the same shapes around a comparison that raises something other than TypeError (Decimal NaN / sNaN, value classes with '
+        'duck-typed comparison methods, a comparison result without truth value, self-containing lists), as M op c, c op M, '
+        'M(T[k]) op c and M(T[k]) op M(T[0]); '
         'a one-element unindexable one_of that rejects without default; a bare Enum class as type / instance_of. '
         'Non-trivial = >= 2 combinators, or an observed short-circuit (a child that must not run), or a default used.')
 ASSUMPTIONS = [
     'atom truth is computed with the Python comparison itself; a comparison that raises is "not true": the atom rejects with '
-    'MatchError, so Or tries the next child, Not passes, defaults apply and Switch goes on to the next case',
+    'MatchError, so Or tries the next child, Not passes, defaults apply and Switch goes on to the next case; this holds for every '
+    'Exception subclass the comparison (or the truth test of its result) raises, not only for TypeError',
     'Check(one_of=C) on a target for which Python\'s own `target in C` raises (unhashable target against a set / dict): both '
     'readings are accepted - a failed condition (CheckError / default, the statement) or the exception of `in` (the docstring '
     'defines one_of by "in") - nothing else (class membership-raises)',
@@ -51,6 +59,178 @@ TARGETS = [['i', 0], ['i', 1], ['i', 2], ['i', 5], ['i', -1], ['s', 'a'], ['s', 
            ['f', 1.5], ['b', True]]
 TYPES = {'int': int, 'str': str, 'dict': dict, 'list': list, 'object': object, 'float': float, 'bool': bool}
 OPS = ['==', '!=', '>', '<', '>=', '<=']
+
+
+# ---------------------------------------------------------------------------
+# operands whose comparison raises something other than TypeError (and compares normally with their own kind)
+
+class Version(object):
+    """value class with the usual duck-typed ordering (self.n < other.n): AttributeError against a plain number; == and !=
+    are object's own"""
+    def __init__(self, n):
+        self.n = n
+
+    def __lt__(self, other):
+        return self.n < other.n
+
+    def __gt__(self, other):
+        return self.n > other.n
+
+    def __le__(self, other):
+        return self.n <= other.n
+
+    def __ge__(self, other):
+        return self.n >= other.n
+
+    def __repr__(self):
+        return '%s(%r)' % (type(self).__name__, self.n)
+
+
+class Money(Version):
+    """the same with duck-typed == and != as well"""
+    def __eq__(self, other):
+        return self.n == other.n
+
+    def __ne__(self, other):
+        return self.n != other.n
+
+    __hash__ = None
+
+
+class NoTruth(object):
+    def __bool__(self):
+        raise ValueError('the truth value of this comparison is ambiguous')
+
+    def __repr__(self):
+        return 'NoTruth()'
+
+
+class Ambig(object):
+    """array-like: every comparison returns an object that has no truth value (ValueError when it is tested)"""
+    def __init__(self, n):
+        self.n = n
+
+    def _cmp(self, other):
+        return NoTruth()
+
+    __eq__ = __ne__ = __lt__ = __gt__ = __le__ = __ge__ = _cmp
+    __hash__ = None
+
+    def __repr__(self):
+        return 'Ambig(%r)' % self.n
+
+
+class Grade(object):
+    """ordered by a rank table; the other side may be a Grade or a rank name: KeyError for anything not in the table"""
+    ORDER = {'low': 0, 'mid': 1, 'high': 2}
+
+    def __init__(self, name):
+        self.name = name
+
+    def _ranks(self, other):
+        return self.ORDER[self.name], self.ORDER[getattr(other, 'name', other)]
+
+    def __eq__(self, other):
+        a, b = self._ranks(other)
+        return a == b
+
+    def __ne__(self, other):
+        a, b = self._ranks(other)
+        return a != b
+
+    def __lt__(self, other):
+        a, b = self._ranks(other)
+        return a < b
+
+    def __gt__(self, other):
+        a, b = self._ranks(other)
+        return a > b
+
+    def __le__(self, other):
+        a, b = self._ranks(other)
+        return a <= b
+
+    def __ge__(self, other):
+        a, b = self._ranks(other)
+        return a >= b
+
+    __hash__ = None
+
+    def __repr__(self):
+        return 'Grade(%r)' % self.name
+
+
+class Incomparable(Exception):
+    """an exception class of the operand's own, directly below Exception"""
+
+
+class Strict(object):
+    """compares with its own kind only and says so with its own exception class"""
+    def __init__(self, n):
+        self.n = n
+
+    def _n(self, other):
+        if type(other) is not Strict:
+            raise Incomparable('Strict compared with %s' % type(other).__name__)
+        return other.n
+
+    def __eq__(self, other):
+        return self.n == self._n(other)
+
+    def __ne__(self, other):
+        return self.n != self._n(other)
+
+    def __lt__(self, other):
+        return self.n < self._n(other)
+
+    def __gt__(self, other):
+        return self.n > self._n(other)
+
+    def __le__(self, other):
+        return self.n <= self._n(other)
+
+    def __ge__(self, other):
+        return self.n >= self._n(other)
+
+    __hash__ = None
+
+    def __repr__(self):
+        return 'Strict(%r)' % self.n
+
+
+XCLASSES = {'ver': Version, 'money': Money, 'ambig': Ambig, 'grade': Grade, 'strict': Strict}
+
+
+def uses_exotic(r):
+    if isinstance(r, list):
+        if r and isinstance(r[0], str) and (r[0] in XCLASSES or r[0] in ('dec', 'selflist', 'selfdict')):
+            return True
+        return any(uses_exotic(x) for x in r)
+    return False
+
+
+def bval(r):
+    """value of a recipe: the grammar of vf.targets plus ["dec", text] / ["ver", n] / ["money", n] / ["ambig", n] /
+    ["grade", name] / ["strict", n] / ["selflist"], ["selfdict"] (a list / dict that contains itself) and the plain containers
+    ["xdict", [[key, R], ...]] / ["xlist", [R, ...]] around them.  Every call builds new objects."""
+    tag = r[0]
+    if tag == 'dec':
+        return Decimal(r[1])
+    if tag in XCLASSES:
+        return XCLASSES[tag](r[1])
+    if tag == 'selflist':
+        l = []
+        l.append(l)
+        return l
+    if tag == 'selfdict':
+        d = {}
+        d['k'] = d
+        return d
+    if tag == 'xdict':
+        return dict((k, bval(v)) for k, v in r[1])
+    if tag == 'xlist':
+        return [bval(v) for v in r[1]]
+    return tg.build(r).obj
 
 
 class LogPred(object):
@@ -98,8 +278,10 @@ class Probe(object):
 # ---------------------------------------------------------------------------
 # bool trees
 
-def gen_atom(draw, counter):
+def gen_atom(draw, counter, lit=True):
     k = draw(st.integers(0, 14))
+    if k == 8 and not lit:
+        return ['type', draw(st.sampled_from(sorted(TYPES)))]
     if k == 14:
         return gen_mm(draw)
     if k <= 2:
@@ -126,7 +308,12 @@ def gen_atom(draw, counter):
     return ['tfail']
 
 
-def gen_tree(draw, d, counter, ops_mode):
+def gen_nolit_atom(draw, counter):
+    """atoms for targets whose own == may raise: no literal patterns (what a literal pattern does then is C09's subject)"""
+    return gen_atom(draw, counter, lit=False)
+
+
+def gen_tree(draw, d, counter, ops_mode, atoms=gen_atom):
     if d <= 0 or draw(st.integers(0, 9)) < 3:
         if ops_mode:
             # operands of & | ~ must be M-expressions or combinators
@@ -138,16 +325,16 @@ def gen_tree(draw, d, counter, ops_mode):
             if k == 1:
                 return ['mt', 'k', draw(st.sampled_from(OPS)), ['i', draw(st.integers(0, 1))]]
             return ['M']
-        return gen_atom(draw, counter)
+        return atoms(draw, counter)
     kind = draw(st.sampled_from(['and', 'or', 'not', 'and', 'or']))
     if kind == 'not':
         if draw(st.sampled_from(range(3))) == 0:
             # an even number of negations around a child whose result is not the target
-            inner = ['and', [['M'], ['val', ['i', draw(st.integers(7, 9))]]]] if draw(st.booleans()) else gen_tree(draw, d - 1, counter, ops_mode)
+            inner = ['and', [['M'], ['val', ['i', draw(st.integers(7, 9))]]]] if draw(st.booleans()) else gen_tree(draw, d - 1, counter, ops_mode, atoms)
             return ['not', ['not', inner]]
-        return ['not', gen_tree(draw, d - 1, counter, ops_mode)]
+        return ['not', gen_tree(draw, d - 1, counter, ops_mode, atoms)]
     n = draw(st.integers(1, 3)) if not ops_mode else draw(st.integers(2, 3))
-    kids = [gen_tree(draw, d - 1, counter, ops_mode) for _ in range(n)]
+    kids = [gen_tree(draw, d - 1, counter, ops_mode, atoms) for _ in range(n)]
     # (in ops mode a node with a default is built by its constructor and then combined by & / |)
     if kind in ('and', 'or') and draw(st.integers(0, 4)) == 0:
         dflt = draw(st.sampled_from([['lit', ['s', 'dflt']], ['T'], ['lit', ['none']], ['list-T']]))
@@ -168,26 +355,98 @@ def ops_mode_ok(t):
     return t[0] in ('m', 'mt', 'mm', 'M', 'and', 'or', 'not')
 
 
-# (target, operand) pairs for which Python cannot evaluate an ordering comparison (TypeError)
+# (a, b) for which Python cannot evaluate the ordering comparisons a op b and b op a: TypeError
 INCOMPARABLE = [(['s', 'a'], ['i', 0]), (['s', ''], ['i', 2]), (['i', 1], ['s', 'a']), (['i', 0], ['s', 'a']),
                 (['none'], ['i', 1]), (['dict', [['k', ['i', 1]]]], ['i', 0]), (['list', []], ['i', 1]), (['f', 1.5], ['s', 'a'])]
 ORDERING = ['>', '<', '>=', '<=']
+# (a, b, operators) for which a op b and b op a raise something OTHER than TypeError (or, NoTruth, yield a result whose truth
+# test raises).  The table only steers the generator: what Python does with the pair is found out by the reference (ref_cmp)
+# and the class labels are measured there.
+RAISING_OTHER = {
+    # a quiet Decimal NaN: decimal.InvalidOperation (an ArithmeticError) in ordering comparisons (== and != are evaluable);
+    # a signalling NaN: in every comparison with a number
+    'ArithmeticError': [(['dec', 'NaN'], ['i', 0], ORDERING), (['dec', 'NaN'], ['f', 1.5], ORDERING),
+                        (['dec', 'NaN'], ['dec', '1.5'], ORDERING), (['dec', 'NaN'], ['dec', 'NaN'], ORDERING),
+                        (['dec', 'NaN'], ['i', 2], ORDERING), (['dec', 'sNaN'], ['i', 1], OPS), (['dec', 'sNaN'], ['dec', '1.5'], OPS)],
+    # duck-typed comparison methods (self.n < other.n)
+    'AttributeError': [(['ver', 2], ['i', 3], ORDERING), (['ver', 2], ['s', 'a'], ORDERING), (['ver', 0], ['none'], ORDERING),
+                       (['ver', 2], ['f', 1.5], ORDERING), (['money', 2], ['i', 2], OPS), (['money', 0], ['none'], OPS),
+                       (['money', 1], ['s', 'a'], OPS)],
+    # a comparison result without a truth value
+    'ValueError': [(['ambig', 1], ['i', 1], OPS), (['ambig', 1], ['ambig', 1], OPS), (['ambig', 0], ['s', 'a'], OPS),
+                   (['ambig', 2], ['none'], OPS)],
+    # a table lookup: KeyError
+    'LookupError': [(['grade', 'low'], ['s', 'zz'], OPS), (['grade', 'high'], ['i', 2], OPS), (['grade', 'mid'], ['none'], OPS)],
+    # an exception class of the operand's own, directly below Exception
+    'OwnException': [(['strict', 1], ['i', 1], OPS), (['strict', 0], ['s', 'a'], OPS), (['strict', 2], ['dec', '1.5'], OPS)],
+    # two lists / dicts that contain themselves
+    'RecursionError': [(['selflist'], ['selflist'], OPS), (['selfdict'], ['selfdict'], ['==', '!='])],
+}
+# values for free pairs around the same classes (most of them evaluable: these atoms take both truth values)
+EXOTIC = [['dec', '1.5'], ['dec', '0'], ['dec', 'NaN'], ['ver', 2], ['ver', 3], ['money', 2], ['money', 3], ['grade', 'low'],
+          ['grade', 'high'], ['strict', 1], ['strict', 2], ['ambig', 1]]
+EXOTIC_OTHER = EXOTIC + [['i', 0], ['i', 2], ['f', 1.5], ['s', 'mid'], ['s', 'a'], ['none']]
+# what may stand on the left of `c op M`: Python asks c's own method first, and a duck-typed one would look into the M object
+# while the spec is being WRITTEN (Version(2) < M raises at once); numbers, strings, None and Decimals defer to M
+REFLECTABLE = ('i', 'f', 's', 'none', 'dec')
+ATOM_FORMS = ['m', 'm', 'rm', 'mt', 'mt', 'mm']
+
+
+def gen_pair(draw, family):
+    """(a, op, b): a pair of value recipes and an operator; family 'typeerror' / 'other': a op b raises (by the tables
+    above); 'free': anything over the exotic value classes"""
+    if family == 'typeerror':
+        a, b = draw(st.sampled_from(INCOMPARABLE))
+        op = draw(st.sampled_from(ORDERING))
+    elif family == 'other':
+        a, b, ops = draw(st.sampled_from(RAISING_OTHER[draw(st.sampled_from(sorted(RAISING_OTHER)))]))
+        op = draw(st.sampled_from(ops))
+    else:
+        a, b, op = draw(st.sampled_from(EXOTIC)), draw(st.sampled_from(EXOTIC_OTHER)), draw(st.sampled_from(OPS))
+    if draw(st.booleans()):
+        a, b = b, a
+    return a, op, b
+
+
+def gen_cmp_atom(draw, family, forms=ATOM_FORMS):
+    """(target, atom) such that the atom denotes the Python comparison a op b of gen_pair, spelled as M op b, a op M (the
+    target is b), M(T[key]) op b or M(T['k']) op M(T[0])"""
+    a, op, b = gen_pair(draw, family)
+    form = draw(st.sampled_from(forms))
+    if form == 'rm' and a[0] not in REFLECTABLE:
+        form = 'm'
+    if form == 'm':
+        return a, ['m', op, b]
+    if form == 'rm':
+        return b, ['rm', op, a]
+    if form == 'mt':
+        if draw(st.booleans()):
+            return ['xdict', [['k', a]]], ['mt', 'k', op, b]
+        return ['xlist', [a]], ['mt', 0, op, b]
+    return ['xdict', [['k', a], [0, b]]], ['mm', 'k', op, 0]
 
 
 def gen_incomparable_atom(draw):
-    target, operand = draw(st.sampled_from(INCOMPARABLE))
-    return target, [draw(st.sampled_from(['m', 'm', 'rm'])), draw(st.sampled_from(ORDERING)), operand]
+    return gen_cmp_atom(draw, 'typeerror', ['m', 'm', 'rm'])
 
 
-def gen_incomparable(draw, counter):
-    """constructed class: an ordering comparison that Python cannot evaluate, below something that can react to a
-    rejection (Or with a later child, Not, And / Or with a default) or bare (for Match(default=)).  Every shape is
-    buildable by constructor and by operators (left operands are M expressions / combinators)."""
-    target, atom = gen_incomparable_atom(draw)
+def gen_incomparable(draw, counter, family='typeerror'):
+    """constructed class: a comparison that Python cannot evaluate, below something that can react to a rejection (Or with
+    a later child, Not, And / Or with a default) or bare (for Match(default=)).  Every shape is buildable by constructor and
+    by operators (left operands are M expressions / combinators).
+    family 'typeerror': an ordering comparison of unorderable builtins, as M op c / c op M;
+    family 'other': the comparison raises something else (RAISING_OTHER; 1 in 5: a free pair over the same value classes,
+    evaluable or not), in all four spellings of gen_cmp_atom; the children next to it are atoms without literal patterns."""
+    if family == 'typeerror':
+        target, atom = gen_incomparable_atom(draw)
+        atoms = gen_atom
+    else:
+        target, atom = gen_cmp_atom(draw, 'free' if draw(st.sampled_from(range(5))) == 0 else 'other')
+        atoms = gen_nolit_atom
     dflt = lambda: draw(st.sampled_from([['lit', ['s', 'dflt']], ['T'], ['lit', ['none']], ['list-T']]))
     shape = draw(st.sampled_from(['or-next', 'or-next', 'not', 'and-default', 'or-default', 'nested', 'bare', 'not-not']))
     if shape == 'or-next':
-        kids = [atom] + [gen_atom(draw, counter) for _ in range(draw(st.integers(1, 2)))]
+        kids = [atom] + [atoms(draw, counter) for _ in range(draw(st.integers(1, 2)))]
         return ['or', kids], target
     if shape == 'not':
         return ['not', atom], target
@@ -207,8 +466,9 @@ def gen_incomparable(draw, counter):
 
 def gen_bool(draw):
     counter = [0]
-    if draw(st.integers(0, 7)) == 0:
-        tree, target = gen_incomparable(draw, counter)
+    k = draw(st.sampled_from(range(8)))
+    if k <= 1:
+        tree, target = gen_incomparable(draw, counter, 'typeerror' if k == 0 else 'other')
         r = {'tree': tree, 'target': target, 'build': draw(st.sampled_from(['ctor', 'ops']))}
     else:
         ops_mode = draw(st.booleans())
@@ -252,12 +512,12 @@ def cmp_expr(lhs, op, v):
 def build_tree(t, log, mode):
     tag = t[0]
     if tag == 'm':
-        return cmp_expr(M, t[1], tg.build(t[2]).obj)
+        return cmp_expr(M, t[1], bval(t[2]))
     if tag == 'rm':
-        v = tg.build(t[2]).obj
+        v = bval(t[2])
         return {'==': v == M, '!=': v != M, '>': v > M, '<': v < M, '>=': v >= M, '<=': v <= M}[t[1]]
     if tag == 'mt':
-        return cmp_expr(M(T[t[1]]), t[2], tg.build(t[3]).obj)
+        return cmp_expr(M(T[t[1]]), t[2], bval(t[3]))
     if tag == 'mm':
         side = lambda x: M if x == 'M' else M(T[x])
         return cmp_expr(side(t[1]), t[2], side(t[3]))
@@ -298,17 +558,41 @@ class Rej(Exception):
         self.why, self.access = why, access
 
 
-def ref_cmp(lhs, op, v, notes=None):
-    """"passes exactly when the Python comparison ... is true": a comparison that raises is not true, it rejects (and
-    "every rejection by these combinators is a MatchError").  notes records that it happened (class label)."""
+CMP_FAMILIES = [('TypeError', TypeError), ('ArithmeticError', ArithmeticError), ('AttributeError', AttributeError),
+                ('ValueError', ValueError), ('LookupError', LookupError), ('RecursionError', RecursionError)]
+
+
+def ref_cmp(lhs, op, v, notes=None, form='m'):
+    """"passes exactly when the Python comparison ... is true": a comparison that raises (or whose result has no truth value)
+    is not true, it rejects (and "every rejection by these combinators is a MatchError").  notes records that it happened
+    (class labels): (family of the exception, spelling of the atom)."""
     try:
-        ok = {'==': lambda: lhs == v, '!=': lambda: lhs != v, '>': lambda: lhs > v, '<': lambda: lhs < v,
-              '>=': lambda: lhs >= v, '<=': lambda: lhs <= v}[op]()
+        ok = bool({'==': lambda: lhs == v, '!=': lambda: lhs != v, '>': lambda: lhs > v, '<': lambda: lhs < v,
+                   '>=': lambda: lhs >= v, '<=': lambda: lhs <= v}[op]())
     except Exception as e:
         if notes is not None:
-            notes.append(('cmp-raises', type(e).__name__))
+            fam = [name for name, cls in CMP_FAMILIES if isinstance(e, cls)]
+            notes.append((fam[0] if fam else 'OwnException', form))
         raise Rej('cmp-raises')
     return ok
+
+
+def label_cmp_raises(ctx, notes, recovered):
+    """class labels for a case in which the reference met a comparison that raises; recovered = the whole expression is
+    true / a case or default was chosen all the same"""
+    ctx.label('cmp-raises')
+    if recovered:
+        ctx.label('cmp-raises-recovered')
+    other = sorted(set(fam for fam, _ in notes if fam != 'TypeError'))
+    if other:
+        ctx.label('cmp-raises-other')
+        if recovered:
+            ctx.label('cmp-raises-other-recovered')
+        ctx.label(*['cmp-raises-' + fam for fam in other])
+        if any(fam != 'TypeError' and form in ('mt', 'mm') for fam, form in notes):
+            ctx.label('cmp-raises-other-subspec')         # M(T-expr) op c / M(T-expr) op M(T-expr)
+        if any(fam != 'TypeError' and form == 'rm' for fam, form in notes):
+            ctx.label('cmp-raises-other-reflected')       # c op M
 
 
 MIRROR = {'==': '==', '!=': '!=', '>': '<', '<': '>', '>=': '<=', '<=': '>='}
@@ -319,13 +603,13 @@ def refbool(t, target, log, notes=None):
     receives an entry for every comparison that Python could not evaluate"""
     tag = t[0]
     if tag == 'm':
-        if ref_cmp(target, t[1], tg.build(t[2]).obj, notes):
+        if ref_cmp(target, t[1], bval(t[2]), notes):
             return target
         raise Rej('cmp')
     if tag == 'rm':
         # c op M  is the Python expression  c op target
-        v = tg.build(t[2]).obj
-        if ref_cmp(v, t[1], target, notes):
+        v = bval(t[2])
+        if ref_cmp(v, t[1], target, notes, 'rm'):
             return target
         raise Rej('cmp')
     if tag in ('mt', 'MT', 't'):
@@ -339,7 +623,7 @@ def refbool(t, target, log, notes=None):
             if sub:
                 return target
             raise Rej('falsy')
-        if ref_cmp(sub, t[2], tg.build(t[3]).obj, notes):
+        if ref_cmp(sub, t[2], bval(t[3]), notes, 'mt'):
             return target
         raise Rej('cmp')
     if tag == 'mm':
@@ -352,7 +636,7 @@ def refbool(t, target, log, notes=None):
                     vals.append(target[x])
                 except (KeyError, IndexError, TypeError):
                     raise Rej('access', True)
-        if ref_cmp(vals[0], t[2], vals[1], notes):
+        if ref_cmp(vals[0], t[2], vals[1], notes, 'mm'):
             return target
         raise Rej('cmp')
     if tag == 'M':
@@ -428,14 +712,19 @@ def run(target, spec):
 
 
 def values_equal(a, b):
+    if a is b:
+        return True           # (the very object: also for values that are not equal to themselves, or whose == raises)
     if type(a) is not type(b):
         return False
-    return a == b
+    try:
+        return bool(a == b)
+    except Exception:
+        return False          # two different objects that cannot be shown to be equal
 
 
 def check_bool(recipe, ctx):
     tree = recipe['tree']
-    target = tg.build(recipe['target']).obj
+    target = bval(recipe['target'])
     snap = tg.snapshot(target)
     rlog, notes = [], []
     mdefault = recipe.get('mdefault')
@@ -461,9 +750,12 @@ def check_bool(recipe, ctx):
     if notes:
         # an atom whose Python comparison raises; "recovered" = the whole expression is true all the same, i.e. an Or went
         # on to a later child, a Not inverted the rejection or a default (And / Or / Match) replaced it
-        ctx.label('cmp-raises')
-        if exp[0] == 'ok':
-            ctx.label('cmp-raises-recovered')
+        label_cmp_raises(ctx, notes, exp[0] == 'ok')
+    if uses_exotic([tree, recipe['target']]):
+        # operands of the value classes of RAISING_OTHER / EXOTIC; "evaluated": every comparison reached could be evaluated
+        ctx.label('exotic-operand')
+        if not notes:
+            ctx.label('exotic-operand-evaluated')
     if mdefault is not None:
         ctx.label('match-default')
     ctx.nontrivial(ncomb >= 2 or short or 'dflt' in repr(tree) or (mdefault is not None and exp[0] == 'ok'))
@@ -555,25 +847,32 @@ def check_reuse(recipe, ctx):
 def gen_switch(draw):
     counter = [0]
     n = draw(st.integers(1, 4))
+    # constructed classes (1 in 6 each): the key spec of an early case is a comparison Python cannot evaluate on this target -
+    # 'typeerror': unorderable builtins; 'other': it raises something else (1 in 5: a free pair over the same value classes);
+    # that case does not pass (Switch goes on to the next one), or passes when the key is its negation
+    k = draw(st.sampled_from(range(6)))
+    family = {0: 'typeerror', 1: 'other'}.get(k)
+    atoms = gen_nolit_atom if family == 'other' else gen_atom
     cases = []
     for i in range(n):
-        key = gen_tree(draw, draw(st.integers(0, 2)), counter, False)
+        key = gen_tree(draw, draw(st.integers(0, 2)), counter, False, atoms)
         val = ['probe', i, draw(st.integers(0, 9)) == 0]
         cases.append([key, val])
     r = {'cases': cases, 'form': draw(st.sampled_from(['list', 'dict'])),
          'default': draw(st.sampled_from([None, None, ['lit', ['s', 'dflt']], ['T'], ['list-T']])),
          'target': draw(st.sampled_from(TARGETS))}
-    if draw(st.integers(0, 5)) == 0:
-        # constructed class: the key spec of an early case is a comparison Python cannot evaluate on this target: that
-        # case does not pass (Switch goes on to the next one), or passes when the key is its negation
-        r['target'], atom = gen_incomparable_atom(draw)
+    if family is not None:
+        if family == 'typeerror':
+            r['target'], atom = gen_incomparable_atom(draw)
+        else:
+            r['target'], atom = gen_cmp_atom(draw, 'free' if draw(st.sampled_from(range(5))) == 0 else 'other')
         i = draw(st.integers(0, min(1, n - 1)))
         cases[i][0] = draw(st.sampled_from([atom, atom, ['not', atom], ['or', [atom, ['type', 'str']]]]))
     return r
 
 
 def check_switch(recipe, ctx):
-    target = tg.build(recipe['target']).obj
+    target = bval(recipe['target'])
     rlog, glog, notes = [], [], []
     # reference: "evaluates only the value spec of the first case whose key spec passes"
     exp = None
@@ -611,9 +910,7 @@ def check_switch(recipe, ctx):
     ctx.label('exp-' + exp[0], 'form-' + recipe['form'], 'default' if kw else 'no-default')
     if notes:
         # a key spec whose comparison Python cannot evaluate was reached; "recovered" = a case / the default was chosen all the same
-        ctx.label('cmp-raises')
-        if exp[0] == 'ok':
-            ctx.label('cmp-raises-recovered')
+        label_cmp_raises(ctx, notes, exp[0] == 'ok')
     ctx.nontrivial(len(recipe['cases']) >= 2)
     where = 'spec=%r target=%r' % (spec, target)
     got = run(target, Match(spec))
@@ -1009,10 +1306,19 @@ def check_checkkw(recipe, ctx):
 
 SUBS = [
     Sub('bool', check_bool, gen=gen_bool, quick=8000, thorough=30000,
-        floors={'exp-ok': 0.2, 'exp-rej': 0.2, 'short-circuit': 0.02, 'build-ops': 0.2,
-                'cmp-raises': 0.07, 'cmp-raises-recovered': 0.04, 'match-default': 0.11}),
+        floors={'exp-ok': 0.2, 'exp-rej': 0.18, 'short-circuit': 0.02, 'build-ops': 0.2,
+                'cmp-raises': 0.07, 'cmp-raises-recovered': 0.04, 'match-default': 0.11,
+                # a comparison that raises something other than TypeError: overall, below something that reacts to the
+                # rejection, as M(T-expr) op c, as c op M, per exception family; evaluable comparisons of the same classes
+                'cmp-raises-other': 0.03, 'cmp-raises-other-recovered': 0.02, 'cmp-raises-other-subspec': 0.015,
+                'cmp-raises-other-reflected': 0.002, 'cmp-raises-ArithmeticError': 0.003, 'cmp-raises-AttributeError': 0.003,
+                'cmp-raises-ValueError': 0.003, 'cmp-raises-LookupError': 0.003, 'cmp-raises-OwnException': 0.003,
+                'cmp-raises-RecursionError': 0.003, 'exotic-operand-evaluated': 0.0035}),
     Sub('switch', check_switch, gen=gen_switch, quick=3000, thorough=10000,
-        floors={'exp-ok': 0.2, 'exp-rej': 0.05, 'cmp-raises': 0.15, 'cmp-raises-recovered': 0.1}),
+        floors={'exp-ok': 0.2, 'exp-rej': 0.05, 'cmp-raises': 0.15, 'cmp-raises-recovered': 0.1,
+                'cmp-raises-other': 0.06, 'cmp-raises-other-recovered': 0.045, 'cmp-raises-other-subspec': 0.022,
+                'cmp-raises-ArithmeticError': 0.004, 'cmp-raises-AttributeError': 0.004, 'cmp-raises-ValueError': 0.004,
+                'cmp-raises-LookupError': 0.004, 'cmp-raises-OwnException': 0.004, 'cmp-raises-RecursionError': 0.004}),
     Sub('checkkw', check_checkkw, gen=gen_check, quick=4000, thorough=15000,
         floors={'pass': 0.05, 'default': 0.2, 'one_of-single-unindexable-reject': 0.02, 'bare-iterable-class': 0.09,
                 'bare-iterable-class-fails': 0.05, 'bare-iterable-class-holds-or-na': 0.028, 'one_of-list': 0.015,
